@@ -55,7 +55,7 @@ CHECKS.update({
 
 CHECKS.update({
  "C13": ("model_checking",
-         "For every (ledger, command) of a corpus (all sequences of <=2, thorough <=3, transactions from an 11-transaction alphabet with multi-commodity accounts, inferred multi-commodity postings, tied price chains, failing multi-commodity diagnostics and a three-commodity holding whose converted values make decimal addition order-sensitive; 10 commands: format, accounts, balance, balance -X up-to-date/historical/with range, register, register <account>, primitive eval with/without -X) and for `okane import` of the repository's Camt053 sample under each of 35 rewrite rules whose matcher element combines 2-3 of 6 capturing fields, and for CSV imports under 26 field maps with >= 2 broken templates, the real CLI code path is run in-process once with insertion-order maps and then once for EVERY combination of up to d non-default iteration orders of okane's internal hash maps (d=1 quick, d=2 thorough); all stdout bytes, exit status and error-chain text must be identical. A labelled free-running SAMPLE (hooks-off release binary, 6-24 fresh processes per case, incl. import of the repository's statement samples) covers what the hooks do not intercept.",
+         "For every (ledger, command) of a corpus (all sequences of <=2, thorough <=3, transactions from a 12-transaction alphabet with multi-commodity accounts, account names differing only by case, inferred multi-commodity postings, tied price chains, failing multi-commodity diagnostics and a three-commodity holding whose converted values make decimal addition order-sensitive; 10 commands: format, accounts, balance, balance -X up-to-date/historical/with range, register, register <account>, primitive eval with/without -X) and for `okane import` of the repository's Camt053 sample under each of 35 rewrite rules whose matcher element combines 2-3 of 6 capturing fields, and for CSV imports under 26 field maps with >= 2 broken templates, the real CLI code path is run in-process once with insertion-order maps and then once for EVERY combination of up to d non-default iteration orders of okane's internal hash maps (d=1 quick, d=2 thorough); all stdout bytes, exit status and error-chain text must be identical. A labelled free-running SAMPLE (hooks-off release binary, 6-24 fresh processes per case, incl. import of the repository's statement samples) covers what the hooks do not intercept.",
          "Exhaustive over the iteration orders of the maps behind --cfg okane_verif (report/balance.rs, report/eval/amount.rs, report/price_db.rs, report/intern.rs; the fields of a rewrite matcher element in cli/src/import/extract.rs, the CSV field map in cli/src/import/csv.rs): all n! orders for maps of <=4 keys, identity/reversal/rotations above. Other maps left on std are only sampled. --now is always passed.",
          "DESIGN.md §3, §5 C13",
          "stateless choice-tree (schedule) exploration of hash-map iteration orders with a deviation bound, on the real code via order-controllable map hooks"),
